@@ -2,10 +2,10 @@ SPECIFICATION Spec
 CONSTANTS
   Progs <- QuickProgs
   Cbs = {TRUE, FALSE}
-  Reenters = {0, 1, 2}
+  Reenters = {0, 1}
   Lockeds = {TRUE}
   Timeouts = TRUE
-  CbThrows = {FALSE}
+  CbThrows = {TRUE}
   ClearOutsideLock = TRUE
   SoleOwnerOnly = TRUE
 VIEW View
